@@ -371,7 +371,7 @@ def build(chk, opt):
     return stack, near, iface, top
 
 
-def _node(kind):
+def _node(kind, salt=0):
     from yowsup.structs import ProtocolTreeNode as N
     if kind == "success":
         return N("success", {"t": "1500000000", "props": "4", "kind": "free", "status": "active", "creation": "1400000000", "expiration": "1600000000"})
@@ -379,7 +379,11 @@ def _node(kind):
         return N("failure", {"reason": "401"})
     k = kind.split(":")[1]
     child = {"conflict": "conflict", "ack": "ack", "xmlNotWellFormed": "xml-not-well-formed", "unknown": "system-shutdown"}[k]
-    return N("stream:error", {}, [N(child)])
+    # the kind marker alone, or next to the free-text child servers add (before or after it), or after a child the library does not know
+    shape = salt % 4
+    kids = [[N(child)], [N("text", {}, None, b"Replaced by new connection"), N(child)], [N(child), N("text", {}, None, b"bye")],
+            [N("x-future", {}), N(child)] if k != "unknown" else [N(child)]][shape]
+    return N("stream:error", {}, kids)
 
 
 def model_event(ev, allowed_d):
@@ -761,7 +765,7 @@ def run_case(chk, stream, case):
             elif ev == "disconnectReq":
                 iface.disconnect()
             elif ev in ("success", "failure") or ev.startswith("streamError"):
-                net.receive(_node(ev))
+                net.receive(_node(ev, ei + len(case["events"])))
             elif ev == "pingTick":
                 th = getattr(iq, "_pingThread", None)
                 if th is not None and not getattr(th, "_verif_done", False):
